@@ -454,7 +454,7 @@ impl Check for C11 {
             victims,
             points,
             observer,
-            fuel: 2_000_000,
+            fuel: 400_000,
             import_observers_first: rng.chance(0.5),
             import_observers_as_modules: rng.chance(0.5),
             import_observers_eval: rng.chance(0.3),
